@@ -382,7 +382,7 @@ class Gen:
         cands = [val for (p, val) in self.vals if p and p[-1] == (kid["mod"], kid["name"])]
         if cands and r.random() < 0.8: v = r.choice(cands)
         if "'" in v and '"' in v: v = "a"
-        if kid["type"] == INT and r.random() < 0.5 and not v.startswith("-"):
+        if kid["type"] == INT and r.random() < 0.5 and v.isdigit():
             return ("num", int(v), 0)
         return ("lit", v)
 
